@@ -50,3 +50,9 @@ claim('C03',
       'order), driver and sibling agreement, left-to-right single evaluation in the chain loop, and the complete who-chains-with-whom '
       'table of all try_chain overrides.',
       'discriminant-path enumeration of MIR + guard-polarity/dominance queries + literal tables from HIR patterns')
+claim('C04',
+      'Decides agreement of the dispatch paths, not extensional equality per builtin: run vs run1/run2 of every impl Builtin '
+      '(delegation or equal effect signature), the argument side of every partial-application wrapper in Func::run/run1/run2, '
+      'constructor helpers, call-or-partially-apply, the operand order of then/./.>/<./apply/of, the read-old -> rhs -> drop -> '
+      'run2(old, rhs) -> assign order of op-assign, and right sections for one-argument builtin calls.',
+      'sibling-implementation cross-check + operand provenance over MIR')
